@@ -31,6 +31,11 @@ class It:
             x = self.src.next(ex)
             if x is not None: return x
             return self.extra.next(ex)
+        if k == 'take':
+            if not isinstance(self.extra, int): raise Unsupported(f'take({self.extra!r})')
+            if self.pos >= self.extra: return None
+            self.pos += 1
+            return self.src.next(ex)
         if k == 'enumerate':
             x = self.src.next(ex)
             if x is None: return None
@@ -796,6 +801,7 @@ BASE_MODELS = [
     (r' as Iterator>::flat_map::', lambda ex, a, c: It('flat_map', as_iter(ex, a[0]), a[1])),
     (r' as Iterator>::chain::', lambda ex, a, c: It('chain', as_iter(ex, a[0]), None, as_iter(ex, a[1], True))),
     (r' as Iterator>::skip$', lambda ex, a, c: It('skip', as_iter(ex, a[0]), None, a[1])),
+    (r' as Iterator>::take$', lambda ex, a, c: It('take', as_iter(ex, a[0]), None, a[1])),
     (r' as Iterator>::enumerate$', lambda ex, a, c: It('enumerate', as_iter(ex, a[0]))),
     (r' as Iterator>::collect::', m_collect),
     (r'^std::iter::once::', lambda ex, a, c: It('list', [a[0]])), (r'^std::iter::empty::', lambda ex, a, c: It('list', [])),
@@ -845,6 +851,8 @@ BASE_MODELS = [
     (r'str>::starts_with::<(char|&str)>$', lambda ex, a, c: m_starts_with(ex, a, c)), (r'str>::ends_with::<char>$', lambda ex, a, c: m_ends_with_char(ex, a, c)),
     (r'str>::find::<char>$', m_find_char), (r'str>::to_uppercase$', need_str(lambda s: s.upper())),
     (r'str>::eq_ignore_ascii_case$', lambda ex, a, c: m_eq_ignore_ascii_case_concrete(ex, a, c)),
+    (r'str>::to_ascii_lowercase$|String::to_ascii_lowercase$', need_str(lambda s: ''.join(chr(ord(c) + 32) if 'A' <= c <= 'Z' else c for c in s))),
+    (r'str>::to_ascii_uppercase$|String::to_ascii_uppercase$', need_str(lambda s: ''.join(chr(ord(c) - 32) if 'a' <= c <= 'z' else c for c in s))),
     (r'^(std::string::)?String::new$', lambda ex, a, c: ''),
     (r'str>::trim_start_matches::<&str>$', need_str(lambda s, p: _trim_start_matches(s, p))),
     (r'u8::is_ascii_control$|<impl u8>::is_ascii_control$', lambda ex, a, c: m_u8_class(ex, a, lambda b: z3.Or(z3.ULT(b, 32), b == 127))),
